@@ -215,8 +215,9 @@ MUTANTS = [
     ("c03-shift-key", "C03", TOKF, "prv_shift = state_dict.get(\"cur_time\", 0)", "prv_shift = state_dict.get(\"cur_time_bar\", 0)", {"ST1"}),
     ("c03-default", "C03", TOKF, "cur_time_bar = state_dict.get(\"cur_time_bar\", 0)", "cur_time_bar = state_dict.get(\"cur_time_bar\", 1)", {"ST2"}),
     ("c03-not-restored", "C03", TOKF, "cur_bar_capacity_remaining = state_dict.get(\"cur_bar_capacity_remaining\", cur_bar_capacity_total)", "cur_bar_capacity_remaining = cur_bar_capacity_total", {"ST1", "ST2"}),
-    ("c03-save-before-close", "C03", TOKF, "        # Close bar and handle rest buffer\n        if cur_time_bar > 0 and cur_bar_capacity_remaining > 0:\n            _apply_rest(cur_bar_capacity_remaining)\n\n        # Update state dictionary\n        state_dict[\"cur_time\"] = cur_time",
-     "        # Update state dictionary\n        state_dict[\"cur_time\"] = cur_time\n        # Close bar and handle rest buffer\n        if cur_time_bar > 0 and cur_bar_capacity_remaining > 0:\n            _apply_rest(cur_bar_capacity_remaining)\n", {"ST3"}),
+    ("c03-save-before-close", "C03", TOKF, "        # Close bar and handle rest buffer\n        if (cur_time_bar > 0 or cur_bar_has_notes) and cur_bar_capacity_remaining > 0:\n            _apply_rest(cur_bar_capacity_remaining)\n\n        # Update state dictionary\n        state_dict[\"cur_time\"] = cur_time",
+     "        # Update state dictionary\n        state_dict[\"cur_time\"] = cur_time\n        # Close bar and handle rest buffer\n        if (cur_time_bar > 0 or cur_bar_has_notes) and cur_bar_capacity_remaining > 0:\n            _apply_rest(cur_bar_capacity_remaining)\n", {"ST3"}),
+    ("c03-stale-has-notes-flag", "C03", TOKF, "                    cur_bar_capacity_remaining = cur_bar_capacity_total\n                    cur_bar_has_notes = False", "                    cur_bar_capacity_remaining = cur_bar_capacity_total", {"CLOSE"}),
 ]
 
 # anchor functions per property for the behaviour-preserving rewrites
@@ -488,7 +489,9 @@ def run(ctx: Ctx) -> None:
             continue
         expect[mid] = rules
         jobs.append(("mutant", prop, mid, path, old, new))
-    for q in ANCHORS.get(prop, []):
+    targets = list(ANCHORS.get(prop, []))
+    targets += sorted(q for q in ctx.analysed_functions if q not in targets and q in ctx.p.functions)     # everything the check looked at
+    for q in targets:
         for kind in ("rename", "aug", "pass", "hoist"):
             jobs.append(("rewrite", prop, q, kind))
     _BASE = ctx.p
